@@ -379,6 +379,11 @@ package pfcp
 //@   ensures [sup]   forall k RuleKey :: k in old(DP) ==> k in DP
 //@   ensures [mono]  forall id uint16 :: id in old(s.PDRIDs) ==> id in s.PDRIDs
 //@   ensures [pf]    !ok(req.CreatePDR()) ==> err != nil && DP == old(DP) && CREATED == old(CREATED)
+//@   ensures [refnew] ok(req.CreatePDR()) && !(pdrIdOf(req) in old(s.PDRIDs)) ==> (forall u uint32 :: u in s.URRIDs ==>
+//@                       s.URRIDs[u].refPdrNum == old(s.URRIDs[u].refPdrNum) + ite(u in s.PDRIDs[pdrIdOf(req)].RelatedURRIDs, uint16(1), uint16(0)))
+//@   ensures [refagain] ok(req.CreatePDR()) && pdrIdOf(req) in old(s.PDRIDs) ==> (forall u uint32 :: u in s.URRIDs ==>
+//@                       s.URRIDs[u].refPdrNum + ite(u in old(s.PDRIDs[pdrIdOf(req)].RelatedURRIDs), uint16(1), uint16(0)) ==
+//@                       old(s.URRIDs[u].refPdrNum) + ite(u in s.PDRIDs[pdrIdOf(req)].RelatedURRIDs, uint16(1), uint16(0)))
 //@   modifies s.PDRIDs[_], s.URRIDs[_].refPdrNum, DP, CREATED
 //@   reveal sessOK
 //@   reveal nodeInv allSessOK dpLive lnodeWF
@@ -386,7 +391,7 @@ package pfcp
 //@   serves C01 C05 C07 C11 C12
 //@   loop range(ies):
 //@     modifies s.URRIDs[_].refPdrNum, urrids[_]
-//@     invariant true
+//@     invariant [cnt] forall u uint32 :: u in s.URRIDs ==> s.URRIDs[u].refPdrNum == old(s.URRIDs[u].refPdrNum) + ite(u in urrids, uint16(1), uint16(0))
 //@   at call CreatePDR#2:
 //@     assume [A-PDRID]  pdrid == pdrIdOf(req)
 //@     assert [seid]     arg0 == s.LocalID && arg1 == req
@@ -650,6 +655,23 @@ package pfcp
 // preserves it ([node] postconditions), so handlers never re-derive it slot by slot.
 //@ opaque pred nodeInv(n *LocalNode) = lnodeWF(n) && allSessOK(n) && dpLive(n)
 
+// LocalNode.Reset is not called by go-upf itself (dead code), but it writes the session table: under contract so
+// that the writers obligations on LocalNode.sess / LocalNode.free have no function outside the verified set.
+//@ func (n *LocalNode) Reset()
+//@   requires n != nil && lnodeWF(n) && allSessOK(n)
+//@   ensures [none] len(n.sess) == 0 && len(n.free) == 0 && (forall id uint64 :: !live(n, id))
+//@   ensures [sub]  forall k RuleKey :: k in DP ==> k in old(DP)
+//@   ensures [wf]   lnodeWF(n)
+//@   modifies *
+//@   reveal allSessOK lnodeWF
+//@   serves C04 C01
+//@   loop range(n.sess):
+//@     modifies DP, whole(n.sess[0].FARIDs[_]), whole(n.sess[0].QERIDs[_]), whole(n.sess[0].BARIDs[_]), whole(n.sess[0].PDRIDs[_]),
+//@            whole(n.sess[0].URRIDs[_].removed), whole(n.sess[0].URRIDs[_].refPdrNum), whole(chans(n.sess[0].q))
+//@     invariant [rest] forall i int :: idx <= i && i < len(n.sess) && n.sess[i] != nil ==> sessOK(n.sess[i])
+//@     invariant [same] n.sess == old(n.sess) && len(n.sess) == old(len(n.sess)) && (forall i int :: 0 <= i && i < len(n.sess) ==> n.sess[i] == old(n.sess[i]))
+//@     invariant [sub]  forall k RuleKey :: k in DP ==> k in old(DP)
+
 //@ func (n *RemoteNode) Reset()
 //@   requires nodeWF(n) && lnodeWF(n.local) && allSessOK(n.local) && dpLive(n.local)
 //@   ensures [gone]   forall id uint64 :: id in old(n.sess) ==> !live(n.local, id)
@@ -837,17 +859,24 @@ package pfcp
 // re-association of a node id reaches exactly the sessions established under it (C05).
 //@ opaque pred registered(s *PfcpServer) = forall i int :: 0 <= i && i < len(s.lnode.sess) && s.lnode.sess[i] != nil ==>
 //@        s.lnode.sess[i].rnode.ID in s.rnodes && s.rnodes[s.lnode.sess[i].rnode.ID] == s.lnode.sess[i].rnode
-//@ pred srvInv(s *PfcpServer) = srvWF(s) && nodeInv(s.lnode) && nodesWF(s) && linked(s) && registered(s)
+// owned(s): the converse of linked - every SEID a registered node lists is a live session hanging off that very node,
+// and no two registered nodes share their list.  With it, "the sessions in rnodes[id].sess" (what re-association
+// removes) is exactly "the sessions established under node id" (C05).
+//@ opaque pred owned(s *PfcpServer) =
+//@        (forall id string; x uint64 :: id in s.rnodes && x in s.rnodes[id].sess ==> live(s.lnode, x) && s.lnode.sess[x-1].rnode == s.rnodes[id]) &&
+//@        (forall id1 string; id2 string :: id1 in s.rnodes && id2 in s.rnodes && id1 != id2 ==> s.rnodes[id1].sess != s.rnodes[id2].sess)
+//@ pred srvInv(s *PfcpServer) = srvWF(s) && nodeInv(s.lnode) && nodesWF(s) && linked(s) && registered(s) && owned(s)
 
 // UpdateNodeID re-keys a node.  [reg] is what C05 needs from it: no other node loses its registration.
 //@ func (s *PfcpServer) UpdateNodeID(n *RemoteNode, newId string)
-//@   requires s != nil && s.rnodes != nil && n != nil && nodesWF(s) && linked(s) && registered(s) && n.ID in s.rnodes && s.rnodes[n.ID] == n
+//@   requires s != nil && s.rnodes != nil && n != nil && nodesWF(s) && linked(s) && registered(s) && owned(s) && n.ID in s.rnodes && s.rnodes[n.ID] == n
 //@   ensures [nodes]  nodesWF(s)
 //@   ensures [linked] linked(s)
 //@   ensures [reg]    registered(s)
+//@   ensures [owned]  owned(s)
 //@   ensures [moved]  n.ID == newId && newId in s.rnodes && s.rnodes[newId] == n
 //@   modifies s.rnodes[_], n.ID, n.log
-//@   reveal nodesWF linked registered
+//@   reveal nodesWF linked registered owned
 //@   serves C05 C07
 
 // A-HDRWF: a parsed request has a header (go-pfcp's parser always sets it)
@@ -881,7 +910,7 @@ package pfcp
 //@   ensures [node]     req.NodeID != nil && ok(req.NodeID.NodeID()) ==> val(req.NodeID.NodeID()) in s.rnodes &&
 //@                        s.rnodes[val(req.NodeID.NodeID())].addr == addr && fresh(s.rnodes[val(req.NodeID.NodeID())]) && len(s.rnodes[val(req.NodeID.NodeID())].sess) == 0
 //@   modifies *
-//@   reveal nodesWF linked registered
+//@   reveal nodesWF linked registered owned
 //@   flag perreturn
 //@   cases known: val(req.NodeID.NodeID()) in s.rnodes | unknown: !(val(req.NodeID.NodeID()) in s.rnodes)
 //@   serves C01 C04 C05 C08 C07
@@ -917,7 +946,7 @@ package pfcp
 //@   ensures [others] forall id uint64 :: id != hdrSEID(req.Header) ==> (live(s.lnode, id) == old(live(s.lnode, id))) && (old(live(s.lnode, id)) ==> s.lnode.sess[id-1] == old(s.lnode.sess[id-1]))
 //@   ensures [isol]   forall k RuleKey :: k.seid != hdrSEID(req.Header) ==> ((k in DP) == (k in old(DP)))
 //@   modifies *
-//@   reveal linked registered
+//@   reveal linked registered owned
 //@   flag perreturn
 //@   serves C01 C04 C05 C08 C11 C12 C07
 //@   loop range(usars):
@@ -966,7 +995,7 @@ package pfcp
 //@   ensures [clean]   forall k RuleKey :: old(live(s.lnode, k.seid)) && !live(s.lnode, k.seid) ==> !(k in DP)
 //@   ensures [isol]    forall k RuleKey :: live(s.lnode, k.seid) ==> ((k in DP) == (k in old(DP)))
 //@   modifies *
-//@   reveal linked registered
+//@   reveal linked registered owned
 //@   flag perreturn
 //@   serves C01 C04 C05 C07
 //@   at call RemoteSess:
@@ -1016,13 +1045,19 @@ package pfcp
 //@     invariant [isol] forall k RuleKey :: k.seid != sess.LocalID ==> ((k in DP) == (k in old(DP))) && ((k in CREATED) == (k in old(CREATED)))
 //@   at call NewSess:
 //@     unfold nodeInv(s.lnode)
+//@     unfold owned(s)
 //@   after call NewSess:
 //@     assert [n]      nodeWF(rnode) && rnode.local == s.lnode && ret0.rnode == rnode && ret0.LocalID in rnode.sess
 //@     assert [slots]  forall i int :: 0 <= i && i < len(s.lnode.sess) && s.lnode.sess[i] != nil && s.lnode.sess[i] != ret0 ==>
 //@                       i < old(len(s.lnode.sess)) && s.lnode.sess[i] == old(s.lnode.sess[i]) && uint64(i) + 1 != ret0.LocalID
 //@     assert [memold] forall i int :: 0 <= i && i < len(s.lnode.sess) && s.lnode.sess[i] != nil && s.lnode.sess[i] != ret0 ==> old((uint64(i) + 1) in s.lnode.sess[i].rnode.sess)
 //@     assert [mem]    forall i int :: 0 <= i && i < len(s.lnode.sess) && s.lnode.sess[i] != nil && s.lnode.sess[i] != ret0 ==> (uint64(i) + 1) in s.lnode.sess[i].rnode.sess
+//@     unfold lnodeWF(s.lnode)
+//@     assert [slot]   forall i int :: 0 <= i && i < len(s.lnode.sess) && s.lnode.sess[i] == ret0 ==> uint64(i) + 1 == ret0.LocalID && (uint64(i) + 1) in s.lnode.sess[i].rnode.sess
 //@     assert [linked] linked(s)
+//@     assert [own1]   forall id string; x uint64 :: id in s.rnodes && x in s.rnodes[id].sess && x != ret0.LocalID ==> old(x in s.rnodes[id].sess)
+//@     assert [own2]   forall id string :: id in s.rnodes && ret0.LocalID in s.rnodes[id].sess ==> s.rnodes[id] == rnode
+//@     fold owned(s)
 //@   at call newIeNodeID:
 //@     assert [own]   arg0 == s.nodeID
 //@   after call newIeNodeID:
@@ -1060,7 +1095,7 @@ package pfcp
 //@   ensures [slots]  forall id uint64 :: (live(s.lnode, id) == old(live(s.lnode, id))) && (old(live(s.lnode, id)) ==> s.lnode.sess[id-1] == old(s.lnode.sess[id-1]))
 //@   ensures [isol]   forall k RuleKey :: k.seid != hdrSEID(req.Header) ==> ((k in DP) == (k in old(DP))) && ((k in CREATED) == (k in old(CREATED)))
 //@   modifies *
-//@   reveal linked nodesWF
+//@   reveal linked nodesWF owned
 //@   flag perreturn
 //@   serves C01 C04 C05 C08 C11 C12 C07
 //@   loop range(req.CreateFAR):
@@ -1211,7 +1246,7 @@ package pfcp
 //@   ensures [dp]    DP == old(DP) && CREATED == old(CREATED)
 //@   ensures [slots] forall id uint64 :: (live(s.lnode, id) == old(live(s.lnode, id))) && (old(live(s.lnode, id)) ==> s.lnode.sess[id-1] == old(s.lnode.sess[id-1]))
 //@   modifies *
-//@   reveal linked
+//@   reveal linked owned
 //@   flag perreturn
 //@   serves C10 C13 C05 C07
 //@   loop range(sr.Reports):
@@ -1247,7 +1282,7 @@ package pfcp
 //@   requires s != nil && srvInv(s) && msg != nil && hdrOf(msg) != nil && addr != nil && parsedWF(msg)
 //@   ensures [inv] srvInv(s)
 //@   modifies *
-//@   reveal linked
+//@   reveal linked owned
 //@   flag perreturn
 //@   serves C06 C07 C08 C05
 //@   at call handleHeartbeatRequest:
@@ -1279,7 +1314,7 @@ package pfcp
 // Entry assumptions: A-RCV (datagrams queued by receiver() carry their source address; reports queued by the data
 // plane hold no nil entries), MaxRetrans < 255 (uint8 arithmetic of the retention window).
 //@ pred srvPre(s *PfcpServer) = srvCfg(s) && s.driver != nil && s.rnodes != nil && rxWF(s) && txWF(s) && s.txSeq < 1<<24 &&
-//@      nodeInv(s.lnode) && nodesWF(s) && linked(s) && registered(s)
+//@      nodeInv(s.lnode) && nodesWF(s) && linked(s) && registered(s) && owned(s)
 
 //@ func (s *PfcpServer) main(wg *sync.WaitGroup)
 //@   requires s != nil && srvPre(s) && wg != nil
@@ -1347,7 +1382,7 @@ package pfcp
 //@   ensures [cfg]   s.cfg == cfg && s.nodeID == cfg.Pfcp.NodeID && s.driver == driver && s.listen == sprintf("%s:%d", cfg.Pfcp.Addr, 8805)
 //@   ensures [chans] s.rcvCh != nil && s.srCh != nil && s.trToCh != nil && !closed(s.rcvCh) && !closed(s.srCh) && !closed(s.trToCh)
 //@   modifies nothing
-//@   reveal nodeInv lnodeWF allSessOK dpLive nodesWF linked registered
+//@   reveal nodeInv lnodeWF allSessOK dpLive nodesWF linked registered owned
 //@   serves C06 C08 C20 C07
 
 // The UPF's own node id as an IE (C08): an IPv4 literal, an IPv6 literal or else an FQDN, built from the given string.
@@ -1358,3 +1393,27 @@ package pfcp
 //@   ensures [fqdn] net.ParseIP(nodeID) == nil ==> r == ie.NewNodeID("", "", nodeID)
 //@   modifies nothing
 //@   serves C08 C07
+
+// ---------------------------------------------------------------------------------------------
+// Writers: the complete list of functions that store to the state the properties are about.  Modular proofs say
+// nothing about a function without a contract; these syntactic obligations make sure there is none that writes.
+//@ writers pfcp.URRInfo.SEQN serves C11 = pfcp.Sess.URRSeq
+//@ writers pfcp.Sess.URRIDs[] serves C11 C12 = pfcp.Sess.CreateURR pfcp.PfcpServer.handleSessionModificationRequest pfcp.PfcpServer.handleSessionDeletionRequest
+//@ writers pfcp.URRInfo.refPdrNum serves C12 = pfcp.Sess.CreatePDR pfcp.Sess.UpdatePDR pfcp.Sess.diassociateURR
+//@ writers pfcp.URRInfo.removed serves C12 C01 = pfcp.Sess.RemoveURR
+//@ writers pfcp.Sess.PDRIDs[] serves C12 C01 = pfcp.Sess.CreatePDR pfcp.Sess.RemovePDR
+//@ writers pfcp.PfcpServer.recoveryTime serves C08 = pfcp.NewPfcpServer
+//@ writers pfcp.Sess.RemoteID serves C08 C10 = pfcp.LocalNode.NewSess
+//@ writers pfcp.PfcpServer.txSeq serves C09 = pfcp.PfcpServer.sendReqTo
+//@ writers pfcp.PfcpServer.txTrans[] serves C09 = pfcp.PfcpServer.sendReqTo pfcp.TxTransaction.recv pfcp.TxTransaction.handleTimeout
+//@ writers pfcp.TxTransaction.msgBuf serves C09 = pfcp.TxTransaction.send
+//@ writers pfcp.PfcpServer.rxTrans[] serves C06 = pfcp.PfcpServer.main pfcp.RxTransaction.handleTimeout
+//@ writers pfcp.RxTransaction.msgBuf serves C06 = pfcp.RxTransaction.send
+//@ writers pfcp.Sess.LocalID serves C04 C05 = pfcp.LocalNode.NewSess
+//@ writers pfcp.LocalNode.sess serves C04 = pfcp.LocalNode.NewSess pfcp.LocalNode.Reset
+//@ writers pfcp.LocalNode.free serves C04 = pfcp.LocalNode.NewSess pfcp.LocalNode.DeleteSess pfcp.LocalNode.Reset
+//@ writers pfcp.Sess.rnode serves C05 C10 = pfcp.RemoteNode.NewSess
+//@ writers pfcp.RemoteNode.sess serves C05 = pfcp.NewRemoteNode pfcp.RemoteNode.Reset
+//@ writers pfcp.RemoteNode.sess[] serves C05 = pfcp.RemoteNode.NewSess pfcp.RemoteNode.DeleteSess
+//@ writers pfcp.PfcpServer.rnodes[] serves C05 = pfcp.PfcpServer.UpdateNodeID pfcp.PfcpServer.handleAssociationSetupRequest
+//@ writers pfcp.Sess.q[] serves C13 = pfcp.Sess.Push
